@@ -79,6 +79,14 @@ def draw_tm_scatterer(rng, center, wild=True, sizeclass=None):
     else:
         a = rfloat(rng, 8.4, 12.0, 3)   # beyond the work arrays: fails fast
     n = draw_index(rng, 0.3)
+    if rng.random() < 0.04:
+        # metal-like / absurd refractive indices ("any ... absorbing and
+        # non-absorbing indices"): |m| x may exceed what the solver's
+        # Bessel-function work arrays hold
+        n = rng.choice([40.0, {'c': [2.0, 40.0]}, 100.0, {'c': [0.2, 3.5]},
+                        {'c': [1.5, 8.0]}])
+        if sizeclass in ('small', 'mid') and rng.random() < 0.5:
+            a = rfloat(rng, 2.0, 5.0, 3)
     if kind == 'sphere':
         return {'op': 'sphere', 'args': {'n': n, 'r': a, 'center': center}}
     if kind == 'spheroid':
@@ -243,6 +251,9 @@ class C10:
                 lo = {'lens_angle': rfloat(rng, 0.4, 1.0, 3),
                       'quad_npts_theta': rng.choice([10, 14]),
                       'quad_npts_phi': rng.choice([10, 14])}
+                if rng.random() < 0.2:
+                    # the wrapper as it comes: 100 x 100 directions per call
+                    lo = {'lens_angle': lo['lens_angle']}
                 A = {'kind': kind, 'det': d, 'sc': sph, 'optics': None,
                      'th': {'kind': 'Lens', 'inner': tm, 'options': lo}}
                 B = dict(A, th={'kind': 'Lens', 'options': lo, 'inner': {
